@@ -51,6 +51,12 @@ CHECKS = {
             'with a fresh cache and compared bit for bit, and the shared cache is audited entry by entry across the whole query history.',
             'relative metrics compared numerically only away from y = 0; structural clauses everywhere',
             'DESIGN.md section 4 C15'),
+    'C12': ('runtime postcondition monitors on filter_clusters / filter_clusters_corners (recomputed clusters, saved-primitive scores, independent long-double fit x weight model)',
+            'For every call: subset/ordering, exactly one member per recomputed cluster, the survivor attains the maximal ranking score '
+            '(NaN scores are violations), smooth_ranking agrees with an independent model on well-conditioned windows; hull mode: at most '
+            'one member per cluster and none from clusters without a lower-hull point; corner variant: survivor maximises the triangle score.',
+            'linkages (C11) and graham_scan_lower (C18) are taken as the reference for clusters and hull',
+            'DESIGN.md section 4 C12'),
 }
 
 BUILDING = {}   # id -> reason (properties not claimed yet)
